@@ -90,19 +90,38 @@ def cancel_all(ctx, args, kwargs):
 cancel_all.modifies = []
 stop = _variant("StopEngineCommand", {"e._apply_safe_state": safe_then, "e.write_process_image": explicit_write, "e.cancel_all_commands": cancel_all}, stop_exit)
 pause = _variant("PauseEngineCommand", {"e._apply_safe_state": safe_then})
-CONTRACTS = [run, stop, pause]
+
+
+# ---- (d) the error pause: set_error_state pauses the run (System State Paused): it must put the outputs into their safe state too -------
+def err_exit(ctx, kind, result):
+    if kind != "return":
+        return
+    evs = ctx.ghost.get("events", [])
+    active = ctx.spec_bool("old(self._runstate_started) and not old(self._runstate_paused)")
+    ctx.check_w("an-error-pause-of-an-active-run-applies-the-safe-state", z3.Implies(active, z3.BoolVal("safe" in evs)),
+                lambda m: {"events_in_order": evs}, "postcondition")
+
+
+error_pause = Contract(target=E + "set_error_state", types={"self": "Engine", "Engine._runstate_started": "bool", "Engine._runstate_paused": "bool"},
+                       raises=None, on_exit=err_exit,
+                       calls={"self._apply_safe_state": ev("safe"), "self._emitter.*": ev("emit"), "self.emitter.*": ev("emit")},
+                       options={"lenient": True, "protected_prefixes": (), "opaque_subscript": True})
+CONTRACTS = [run, stop, pause, error_pause]
 TARGETS = [c.key for c in CONTRACTS]
 TRUSTED = ["_apply_safe_state sets exactly the tags of the Write registers that declare safe_value; write_process_image maps tags to their registers "
            "(loops over the register table: followed leniently, values not proved)", "Engine.tick's write phase writes the image on every tick of a started run",
            "hardware write_batch stores what it is given (C24/C25)"]
 CLAUSES = {"safe from engine start until the first run starts": "(a) the write that carries the safe state at engine start actually happens",
-           "after every Stop": "(b)", "throughout every pause": "(c) mechanism only (the values written during the pause are not proved)",
+           "after every Stop": "(b)", "throughout every pause": "(c) Pause and (d) the error pause (set_error_state): mechanism only (the values written during the pause are not proved; a UOD command that keeps executing during the pause is NOT covered)",
            "unless the user commands the output; no other value while no run is active": "NOT covered"}
 EXPLANATION = "Partial claim: event-order obligations showing that an applied safe state reaches a hardware write."
 
 
 def replay(obligation, witness):
     import contracts.c08_native as n
+    if "set_error_state" in obligation:
+        r = n.error_pause_leaves_outputs_unsafe()
+        return {"confirmed": bool(r["violated"]), **r}
     r = n.safe_value_written_at_engine_start()
     return {"confirmed": bool(r["violated"]), **r}
 
